@@ -21,6 +21,13 @@ THEOREMS = [
     "Mpc.C15_kos_never_silent_partial",
     "Mpc.C15_kos_response_sound",
     "Mpc.C15_kos_adaptive_forgery_witness",
+    # alterations as sets of positions; the coefficient vector (Model/KosSet.lean)
+    "Mpc.C15_kos_set_accept_iff",
+    "Mpc.C15_kos_pair_accept_iff",
+    "Mpc.C15_kos_distinct_sound",
+    "Mpc.C15_kos_never_silent_two_positions",
+    "Mpc.C15_kos_dependent_rows_forgery_witness",
+    "Mpc.C15_kos_probe_recovers_chi",
 ]
 
 
@@ -171,7 +178,9 @@ def run(ctx):
                 "faults_selected_column_A", "faults_unselected_or_padding_ok", "faults_live",
                 "outcome_padding_ok", "outcome_double_A", "outcome_multi_A", "outcome_bytemask_A",
                 "outcome_resp-seed_A", "outcome_resp-x_A", "outcome_resp-t0_A", "outcome_resp-t1_A", "outcome_flip+resp_A",
-                "delta_ones", "delta_zero", "delta_bit0", "delta_bit127"] + \
+                "delta_ones", "delta_zero", "delta_bit0", "delta_bit127",
+                "chi_recovered", "chi_distinct", "chi_rank_128", "chi_generic_dependency_found",
+                "outcome_dep-generic_ok", "outcome_dep-generic-unselected_ok", "faults_live_dep"] + \
                (["outcome_row0-payload_A", "outcome_row0-payload_ok", "outcome_row0-check_A", "outcome_row0-check_ok",
                  "outcome_split-payload_A", "outcome_split-payload_ok", "outcome_split-check_A", "outcome_split-check_ok",
                  "outcome_sample-payload_A", "outcome_sample-check_A", "outcome_lastrow-check_A",
@@ -188,8 +197,21 @@ def run(ctx):
         ctx.oblige("on the wire: payload chunks of ceil(n/8)*8 rows, a check batch of exactly 256 rows, four labels (every session)",
                    c.get("wire_shape_ok", 0) == c.get("honest_sessions_ok", -1) and c.get("honest_sessions_ok", 0) > 0,
                    "completed sessions=%s with the expected shape=%s" % (c.get("honest_sessions_ok"), c.get("wire_shape_ok", 0)))
+        ctx.oblige("the challenge coefficients of every session were recovered from the real receiver's behaviour (x of "
+                   "n+256 probe calls with one choice bit set) and explain the honest checksum",
+                   c.get("chi_recovered", 0) == c.get("honest_sessions_ok", -1) and c.get("chi_recovery_failed", 0) == 0,
+                   "sessions=%s recovered=%s failed=%s" % (c.get("honest_sessions_ok"), c.get("chi_recovered", 0),
+                                                            c.get("chi_recovery_failed", 0)))
+        rel = {k[len("chi_relation_"):]: v for k, v in c.items() if k.startswith("chi_relation_")}
+        ctx.oblige("the recovered coefficients of every session are non-zero, pairwise distinct (hypothesis distinctNZ of "
+                   "C15_kos_distinct_sound), of rank 128, and free of XOR-triples/-quadruples and dependent 96-row windows",
+                   c.get("chi_distinct", 0) == c.get("chi_recovered", -1) and
+                   c.get("chi_rank_128", 0) == c.get("chi_recovered", -1) and not rel,
+                   "recovered=%s distinct=%s rank128=%s relations found (sessions per kind)=%s" % (
+                       c.get("chi_recovered", 0), c.get("chi_distinct", 0), c.get("chi_rank_128", 0), rel))
+        ctx.coverage["coefficient_rows_recovered"] = c.get("chi_rows_recovered", 0)
         ctx.coverage["selected_column_alterations_accepted_outside_known_class"] = \
-            c.get("faults_selected_column_ok", 0) - c.get("adaptive_accepted", 0)
+            c.get("faults_selected_column_ok", 0) - c.get("known_class_accepted", 0)
         ctx.coverage["exhaustive_positions_n_le_9"] = not quick
         # ctx.widen (broken obligation or drifted advisory, no failing input yet) - except that the known
         # finding of this property is always among ctx.fails and must not suppress the widened search
@@ -207,7 +229,15 @@ def run(ctx):
         "row 0 and last row of both batches x 128 columns, columns 120..127 at sampled rows, one flip per column at a random row of each batch, seeded sample of "
         "positions (-n per session), padding rows, double flips (same row / same column / same byte / payload+check), "
         "3-8 flips, whole-byte masks, every byte of seed2/x/t0/t1 (bit 0, bit 7, random mask), flip + unrelated response "
-        "alteration, and the chi-aware alteration (flip + t xor chi_r*X^col: the known finding). Size sweep: 25 (53) "
+        "alteration, and the chi-aware alteration (flip + t xor chi_r*X^col: the known finding). COEFFICIENT-DRIVEN "
+        "multi-row alterations (every session, fault and sweep): the n+256 challenge coefficients are recovered from the "
+        "real receiver (probe calls with one choice bit set; op `chi` compares them with the model's AES-CTR stream), "
+        "searched for zero coefficients, equal pairs, XOR-triples, XOR-quadruples (n+256 <= 700), dependent windows of 96 "
+        "consecutive rows (row 0, every 1024-block boundary, start/end of the check batch) and, by Gaussian elimination, "
+        "for a dependent set through a random payload row and one inside the check batch; every set found gives "
+        "'one column at all rows of the set' for 2 selected columns, 2 selected columns at once and an unselected "
+        "column (classes dep-zero/pair/triple/quad/window/rank = violations when accepted, dep-generic = known "
+        "finding), replayed scripted and once per class live. Size sweep: 25 (53) "
         "honest sessions n = 1..2049 (3073) with all choice kinds and random/all-ones/zero/single-bit Delta, each with "
         "~11 sampled alterations (last row, selected/unselected column, multi-chunk offsets). Every alteration is "
         "replayed on a fresh real sender behind a scripted ot.IO; a sample (40 per fault session, 6 per sweep session) "
@@ -216,7 +246,9 @@ def run(ctx):
     ctx.assumptions += [
         "the PRGs (AES-CTR key streams of the base-OT keys and of the challenge seed) are arbitrary functions in every theorem; Lean AES-CTR only matters for the byte-exact comparison",
         "theorems are relative to BaseOK (the 128 base OTs delivered the keys selected by Delta; C06) and to an honest receiver whose messages are altered in transit by XOR masks of the same shape (bit flips never change message lengths or framing)",
-        "NOT proved (probabilistic): alterations spanning several rows with E_r & Delta != 0 are accepted only if sum_r chi_r*(E_r & Delta) = 0; that this has probability ~2^-128 over seed2 is a statement about AES-CTR outside Lean. Deterministic parts: single row (C15_kos_single_row_sound), unselected columns (C15_kos_unselected_harmless), response alone (C15_kos_response_sound)",
+        "NOT proved (probabilistic): alterations spanning several rows with E_r & Delta != 0, chosen WITHOUT knowledge of seed2, are accepted only if sum_r chi_r*(E_r & Delta) = 0 (C15_kos_set_accept_iff); that this has probability ~2^-128 over seed2 is a statement about AES-CTR outside Lean. Deterministic parts: single row (C15_kos_single_row_sound), unselected columns (C15_kos_unselected_harmless), response alone (C15_kos_response_sound), one or two positions of one column when the session's coefficients are non-zero and pairwise distinct (C15_kos_distinct_sound; the hypothesis is checked per session on the coefficients recovered from the real code and on the model's)",
+        "KNOWN FINDING (challenge chosen by the receiver, 128-bit coefficients): a set S of ~60 rows with XOR_S chi_r = 0 exists among any 129 rows; one column flipped at all rows of S is accepted whatever Delta is (C15_kos_dependent_rows_forgery_witness); reproduced on the real code in every session by the class dep-generic. That such a set EXISTS for every coefficient vector (dimension counting) is not a Lean theorem; the harness exhibits one per session",
+        "the coefficients are recovered through the receiver (x is GF(2)-linear in the choice bits, C15_kos_probe_recovers_chi); that the sender uses the same coefficients is implied by completeness on every session and confirmed per sampled row by the chi-aware alterations built from the recovered values",
         "KNOWN FINDING (by design of the KOS check): the matrix altered TOGETHER with a chi-aware response is accepted whenever the guess of E_r & Delta is right (C15_kos_adaptive_forgery_witness); reproduced on the real code by the class adaptive-chi-aware",
         "the amd64 assembly is covered by the theorem about its algorithm (mul128Karatsuba = mul128Generic, PCLMULQDQ modelled as clmul64) and by the differential run of the real mul128 against the model; the CPU instruction semantics is trusted",
         "an altered challenge seed is evaluated by running the model sender (no closed-form condition); altered message lengths / framing are outside the property (bit alterations only)",
@@ -229,9 +261,15 @@ def run(ctx):
         "chunks of payload and check batch and an altered response the sender accepts IFF sum_r chi_r*(E_r&Delta) xor "
         "(x xor x')*Delta xor (t xor t') = 0 and then outputs the honest labels xor E_r&Delta (C15_kos_accept_iff); "
         "alterations confined to unselected columns are harmless; all effective alterations in one row with chi_r != 0 "
-        "abort; response-only alterations abort unless (x xor x')*Delta = t xor t'. Tie: real mul128/clmul64/"
+        "abort; response-only alterations abort unless (x xor x')*Delta = t xor t'; for a SET of altered positions the "
+        "sender accepts iff the XOR of chi_r*X^i over the positions selected by Delta vanishes (C15_kos_set_accept_iff), two "
+        "flips of one selected column pass iff chi_r = chi_r' (C15_kos_pair_accept_iff), with non-zero pairwise distinct "
+        "coefficients no 1- or 2-position alteration of one column is silently accepted (C15_kos_distinct_sound, "
+        "C15_kos_never_silent_two_positions), rows whose coefficients XOR to zero give an accepted forgery "
+        "(C15_kos_dependent_rows_forgery_witness). Tie: real mul128/clmul64/"
         "vectorInnPrdtSumNoRed vs the model (hook ot/verif_export_c15.go), real malicious sessions vs the model byte "
-        "for byte (Lean AES-CTR gives the real chi), and for EVERY enumerated alteration the real sender's outcome and "
+        "for byte (Lean AES-CTR gives the real chi), the coefficients RECOVERED from the real receiver vs the model's "
+        "stream for every session, and for EVERY enumerated alteration the real sender's outcome and "
         "outputs vs the acceptance condition (a spread also vs the model sender run on the altered messages). Oracle "
         "(model-independent): accepted => outputs correlated for the original choices and no altered bit in a "
         "Delta-selected column; honest sessions never abort.")
